@@ -69,10 +69,10 @@ func (e *Engine) GenLemma(con *Contract) (obls []*Obligation, err error) {
 				return nil, fmt.Errorf("known_findings.json: region of %s: %v", f.Obligation, err)
 			}
 			r := vc.evalBool(env, rx)
-			if old, ok := vc.regions[f.Obligation]; ok {
+			if old, ok := vc.regions[normOrd(f.Obligation)]; ok {
 				r = sOr(old, r)
 			}
-			vc.regions[f.Obligation] = r
+			vc.regions[normOrd(f.Obligation)] = r
 		}
 	}
 	for i, cl := range con.Calls {
